@@ -10,9 +10,9 @@ CLASS_LAYER = [PA + 'Pauli.__matmul__#Pauli', PA + 'Pauli.__neg__', PA + 'Pauli.
                ST + 'StabilizerState.expect#state', 'pyclifford/circuit.py::MeasureLayer.forward']
 
 # every kernel that currently has a discharged contract (their frame.* obligations are the C17 frame conditions)
-MEASURE_LEMMAS = ['acq_bilinear', 'acq_antisym', 'ipow_parity', 'ordg_bits', 'acq_zero', 'ordg_acq', 'selacq_gram', 'acqsum_ext',
+MEASURE_LEMMAS = ['acq_diff2', 'onsite_flat', 'acq_bilinear', 'acq_antisym', 'ipow_parity', 'ordg_bits', 'acq_zero', 'ordg_acq', 'selacq_gram', 'acqsum_ext',
                   'ipowsum_ext', 'symplectic_complete']
-KERNELS = [U + f for f in ('stabilizer_measure', 'stabilizer_project', 'stabilizer_postselection', 'stabilizer_projection_trace', 'acq', 'ipow', 'p0', 'ps0', 'acq_mat', 'pauli_tokenize', 'pauli_combine', 'pauli_transform',
+KERNELS = [U + f for f in ('pauli_diagonalize1', 'stabilizer_measure', 'stabilizer_project', 'stabilizer_postselection', 'stabilizer_projection_trace', 'acq', 'ipow', 'p0', 'ps0', 'acq_mat', 'pauli_tokenize', 'pauli_combine', 'pauli_transform',
                            'clifford_rotate', 'clifford_rotate_signless', 'map_to_state', 'state_to_map', 'front',
                            'pauli_is_onsite', 'stabilizer_expect')]
 
@@ -145,7 +145,7 @@ def C17(run):
 
 
 def C18(run):
-    run.deductive(keys=[U + 'front', U + 'pauli_is_onsite'], lemmas=[])
+    run.deductive(keys=[U + 'front', U + 'pauli_is_onsite', U + 'pauli_diagonalize1'], lemmas=['acq_diff2', 'onsite_flat', 'acq_antisym'])
     run.bounded_check('c18_diagonalize', _b().c18_diagonalize, Nmax=q(run, 3, 4), hams=q(run, 30, 200))
     return 'other', ('deductive: front / pauli_is_onsite; bounded: diagonalize for all strings, signs, targets, causal on/off (N <= 3/4), '
                      'states, SBRG on commuting (exact) and arbitrary (diagonal form) Hamiltonians')
